@@ -316,15 +316,23 @@ extern (*Stream).projectGroupColumns
   props C07 C04 C05 C06 C16 C20
   modifies allmaps
 
-extern (*Stream).applyWindowAnalytic
+// analytic functions over window results: every analytic field's value lands in the result row under its own alias (a
+// multi-column one fans out), the hidden inline-aggregate keys are stripped, and the row is suppressed only when a
+// change-detecting query saw no change
+func (*Stream).applyWindowAnalytic
   props C07 C05 C06 C12 C13 C14 C15 C16 C19 C20
   modifies allmaps
+  option assumed_frame
+  observe results := Evaluate
+  before Evaluate the-analytic-functions-see-this-result-row: $arg1 == row
+  atreturn every-analytic-field-is-looked-at: $results != nil ==> $done1
 
 pure encoding/json.Marshal
 
 // DISTINCT keeps, in batch order, the first row of every distinct content; a row whose content cannot be compared is kept
 func (*DataProcessor).applyDistinct
   props C07 C01 C03 C05 C08 C09 C10 C12 C15 C17 C20
+  atreturn every-row-of-the-batch-is-looked-at: $done1
   option assumed_frame
   modifies allmaps
   observe ser := Marshal
@@ -616,6 +624,10 @@ extern (*AnalyticEngine).Evaluate
 func (*Stream).evalAnalytic
   props C20 C14 C05 C06 C12 C13 C15 C16 C19
   modifies mapof(dataMap), s.analytic
+  observe results := Evaluate
+  before Evaluate the-analytic-functions-see-this-row: $arg1 == dataMap
+  atreturn every-analytic-field-and-every-where-placeholder-is-looked-at: $results != nil ==> $done1 && $done3
+  atreturn the-results-of-this-row-are-handed-back: $results != nil ==> result == $results
   ensures nothing-to-inject-nothing-written: len(s.config.AnalyticFields) == 0 && len(s.config.WhereAnalyticCalls) == 0 ==> mapUnchanged(dataMap)
   loop 1 invariant len(s.config.AnalyticFields) == 0 && len(s.config.WhereAnalyticCalls) == 0 ==> mapUnchanged(dataMap)
   loop 2 invariant len(s.config.AnalyticFields) == 0 && len(s.config.WhereAnalyticCalls) == 0 ==> mapUnchanged(dataMap)
@@ -871,6 +883,7 @@ extern analyticColName
 // partition's last result
 func (*analyticFieldEngine).evaluateMultiColumn
   props C14 C12
+  before partitionKey every-watched-column-was-looked-at-before-the-state-is-consulted: $done1
   requires fe != nil && fe.lastResults != nil
   modifies *
   observe pk := partitionKey
